@@ -373,7 +373,8 @@ class sptenmat:
             np.zeros(self.shape, order=self.order), self.rdims, self.cdims, self.tshape
         )
         # Assign nonzero values
-        result[tuple(self.subs.transpose())] = np.squeeze(self.vals)
+        if self.subs.size > 0:
+            result[tuple(self.subs.transpose())] = np.squeeze(self.vals)
         return result
 
     @property
